@@ -187,7 +187,10 @@ impl IntrinsicInstrKind {
 /// The `usize`s are all indices into the encoded argument list.
 #[derive(Debug)]
 pub struct IntrinsicInstrAbiParts {
+    /// Number of entries in the encoded argument list (padding included).
     pub num_instr_args: usize,
+    /// Indices of padding.  These take no argument when the instruction is written.
+    pub padding: Vec<usize>,
     /// Indices of args that should use the same logic as arguments in `ins_` instruction-call syntax.
     pub plain_args: Vec<usize>,
     /// Indices of args that are known registers.  These show up in intrinsics.
@@ -329,10 +332,14 @@ impl IntrinsicInstrAbiParts {
         let mut encodings = abi.arg_encodings().enumerate().collect::<Vec<_>>();
 
         let helper = IntrinsicAbiHelper { intrinsic, abi_loc };
+        let num_instr_args = encodings.len();
+        let padding = encodings.iter()
+            .filter(|(_, enc)| matches!(enc, ArgEncoding::Padding { .. }))
+            .map(|&(index, _)| index).collect();
         helper.find_and_remove_padding(&mut encodings);
 
         let mut out = IntrinsicInstrAbiParts {
-            num_instr_args: encodings.len(),
+            num_instr_args, padding,
             plain_args: vec![], outputs: vec![], jump: None, sub_id: None,
         };
 
